@@ -188,7 +188,9 @@ def evaluate(spec, docs, schema):
             rx = re.compile(fnmatch.translate(spec[2]))
             test = lambda tb: rx.match(tb.decode("utf-8")) is not None
         elif k == "regex":
-            rx = re.compile(spec[2] + r"\Z")
+            # "terms that match a regular expression" in the sense of re.match
+            # (anchored at the start only), as the Regex docstring refers to
+            rx = re.compile(spec[2])
             test = lambda tb: rx.match(tb.decode("utf-8")) is not None
         elif k == "termrange":
             lo, hi, lox, hix = spec[2], spec[3], spec[4], spec[5]
